@@ -92,7 +92,11 @@ func (s *Scn) Key() string {
 		freelist = int(binary.BigEndian.Uint32(im.Data[36:]))
 		dbPages = dbPages*1000 + im.Pages()
 	}
-	return fmt.Sprintf("ls=%v/%v%v%v%v app=%v tx=%v rd=%v cur=%s ss=%v,%v,%v,%d wal=%d/%d/%d/%d/%v db=%d fl=%v loc=%s rem=%s",
+	lf := ""
+	if s.lfArmed != nil && s.lfArmed() {
+		lf = " lf=" + s.lfMode
+	}
+	return lf + fmt.Sprintf("ls=%v/%v%v%v%v app=%v tx=%v rd=%v cur=%s ss=%v,%v,%v,%d wal=%d/%d/%d/%d/%v db=%d fl=%v loc=%s rem=%s",
 		s.LSOpen, sq, fo, rtx, opened, s.AppUp, s.InTx, s.InRd, cursor,
 		ss.TruncatePassiveFailed, ss.SyncedSinceCheckpoint, ss.SyncedToWALEnd, (ss.LastSyncedWALOffset-32)/fs,
 		w.PhysFrames, w.ValidFrames, w.CommittedFrames, w.StaleSalts, w.Uncommitted,
